@@ -68,22 +68,25 @@ var amounts = []string{"1", "0.001", "0", "0.000001", "0.0000001", "-1", "1.0000
 	"0x1p3", "1e", "e5", "1.2.3", "1,5", "00001", "0e4000", "12345678901234567890123456789012345678901234567890"}
 
 func (g gen) addr() string {
-	return g.pick("{a0}", "{a1}", "{a2}", "{a3}", "{a4}", "{a5}", "{w0a0}", "{w0a1}", "{w0a2}", "{w1a0}", "{w1a1}", "{w2a0}", "{w2a1}")
+	return g.pick("{a0}", "{a1}", "{a2}", "{a3}", "{a4}", "{a5}", "{w0a0}", "{w0a1}", "{w0a2}", "{w1a0}", "{w1a1}", "{w2a0}", "{w2a1}", "{aunused}")
 }
 func (g gen) badAddr() string {
 	return g.pick("2GgFvqoyk9RjwVzj8tqfcXVXB4orBwoc9qv", "0000000000000000000000000000000000", "{a0}x", "l{a1}", "1BcDeFgHiJ", "{tx1}", "bc1qar0srrr7xfkvy5l643lydnw9re59gtzzwf5mdq") // null-ish, bad checksum, not base58
 }
 func (g gen) txid() string {
-	return g.pick("{tx0}", "{tx1}", "{tx2}", "{tx3}", "{tx5}", "{tx8}", "{ptx0}", "{ptx1}")
+	// confirmed, pooled, and well-formed ids of objects the node does not know
+	return g.pick("{tx0}", "{tx1}", "{tx2}", "{tx3}", "{tx5}", "{tx8}", "{ptx0}", "{ptx1}", "{unk0}", "{unk1}", "{uxs0}")
 }
 func (g gen) badHash() string {
 	return g.pick("0000000000000000000000000000000000000000000000000000000000000000", "ffffffffffffffffffffffffffffffffffffffffffffffffffffffffffffffff",
 		"{tx1}00", "abcd", "zz{tx2}", "{uxs0}", "{bh2}", strings.Repeat("0", 63), strings.Repeat("f", 65))
 }
 func (g gen) uxid() string {
-	return g.pick("{uxu0}", "{uxu1}", "{uxu3}", "{uxu6}", "{uxs0}", "{uxs1}", "{uxs3}")
+	return g.pick("{uxu0}", "{uxu1}", "{uxu3}", "{uxu6}", "{uxs0}", "{uxs1}", "{uxs3}", "{unk0}", "{unk2}", "{tx1}")
 }
-func (g gen) wid() string { return g.pick("{wid0}", "{wid1}", "{wid2}") }
+func (g gen) wid() string {
+	return g.pick("{wid0}", "{wid1}", "{wid2}", "{wid0}", "{wid1}", "{wid2}", "unknown_wallet.wlt")
+}
 func (g gen) badWid() string {
 	return g.pick("nope.wlt", "../c28_w0.wlt", "{wid0}.bak", "c28_w0", "/etc/passwd", ".wlt", strings.Repeat("w", 300)+".wlt")
 }
@@ -94,14 +97,20 @@ func (g gen) boolv() string { return g.pick("1", "0", "true", "false", "t", "F",
 func (g gen) badBool() string {
 	return g.pick("2", "yes", "", "tru", "null", "-1")
 }
-func (g gen) smallNum() string  { return g.pick("1", "2", "3", "5", "10", "20") }
-func (g gen) rawKind() string   { return "{raw." + g.pick(append(append([]string{}, txnKinds...), "trunc", "odd", "flip")...) + "}" }
-func (g gen) seed() string      { return g.pick("{seed0}", "{seed1}", "{seed2}", mnemonic12, "some new seed "+strconv.Itoa(g.r.Intn(1000))) }
-func (g gen) wtype() string     { return g.pick("deterministic", "deterministic", "bip44", "collection", "xpub") }
-func (g gen) password() string  { return g.pick("pw1", "pw1", "", "wrong", "pw1 ") }
-func (g gen) weirdStr() string  { return weirdStrs[g.r.Intn(len(weirdStrs))] }
-func (g gen) weirdInt() string  { return weirdInts[g.r.Intn(len(weirdInts))] }
-func (g gen) amount() string    { return amounts[g.r.Intn(len(amounts))] }
+func (g gen) smallNum() string { return g.pick("1", "2", "3", "5", "10", "20") }
+func (g gen) rawKind() string {
+	return "{raw." + g.pick(append(append([]string{}, txnKinds...), "trunc", "odd", "flip", "w0unsigned", "w2unsigned")...) + "}"
+}
+func (g gen) seed() string {
+	return g.pick("{seed0}", "{seed1}", "{seed2}", mnemonic12, "some new seed "+strconv.Itoa(g.r.Intn(1000)))
+}
+func (g gen) wtype() string {
+	return g.pick("deterministic", "deterministic", "bip44", "collection", "xpub")
+}
+func (g gen) password() string   { return g.pick("pw1", "pw1", "", "wrong", "pw1 ") }
+func (g gen) weirdStr() string   { return weirdStrs[g.r.Intn(len(weirdStrs))] }
+func (g gen) weirdInt() string   { return weirdInts[g.r.Intn(len(weirdInts))] }
+func (g gen) amount() string     { return amounts[g.r.Intn(len(amounts))] }
 func (g gen) goodAmount() string { return g.pick("1", "0.001", "2.5", "10", "0.5", "100") }
 
 func (g gen) list(f func() string, bad func() string) string {
@@ -131,7 +140,7 @@ func (g gen) value(kind string) (string, string) {
 	case "hashes":
 		return g.list(g.uxid, g.badHash), g.pick(g.badHash(), g.weirdStr())
 	case "bhash":
-		return g.pick("{bh0}", "{bh1}", "{bh3}", "{bh6}"), g.pick(g.badHash(), g.weirdStr())
+		return g.pick("{bh0}", "{bh1}", "{bh3}", "{bh6}", "{unk0}", "{tx2}"), g.pick(g.badHash(), g.weirdStr())
 	case "seq", "start", "end":
 		return g.seq(), g.weirdInt()
 	case "seqs":
@@ -189,7 +198,7 @@ type param struct{ name, kind string }
 
 type endpoint struct {
 	method string
-	form   []param                  // query (GET/DELETE) or form body (POST) parameters
+	form   []param                 // query (GET/DELETE) or form body (POST) parameters
 	json   func(g gen) interface{} // JSON body builder (nil: form endpoint)
 }
 
@@ -263,13 +272,69 @@ func (g gen) receivers() interface{} {
 	return out
 }
 
+// coherentTxnBody builds a request the node accepts (auto or manual hours selection, consistent
+// receivers, a source that has coins); wallet = "" for POST /api/v2/transaction
+func (g gen) coherentTxnBody(wallet string) map[string]interface{} {
+	m := map[string]interface{}{}
+	manual := g.r.Intn(3) == 0
+	n := 1 + g.r.Intn(2)
+	var to []interface{}
+	for i := 0; i < n; i++ {
+		rcv := map[string]interface{}{"address": g.addr(), "coins": g.pick("1", "0.001", "2.5", "0.5", "3")}
+		if manual {
+			rcv["hours"] = g.pick("1", "10", "0", "100")
+		}
+		to = append(to, rcv)
+	}
+	m["to"] = to
+	if manual {
+		m["hours_selection"] = map[string]interface{}{"type": "manual"}
+	} else {
+		m["hours_selection"] = map[string]interface{}{"type": "auto", "mode": "share", "share_factor": g.pick("0.5", "0", "1", "0.25")}
+	}
+	if g.r.Intn(3) == 0 {
+		m["change_address"] = g.addr()
+	}
+	if g.r.Intn(4) == 0 {
+		m["ignore_unconfirmed"] = true
+	}
+	switch wallet {
+	case "":
+		if g.r.Bool() {
+			m["addresses"] = []interface{}{g.pick("{a3}", "{a4}", "{a1}", "{w0a0}", "{w2a0}")}
+		} else {
+			m["unspents"] = []interface{}{g.pick("{k3ux0}", "{k4ux0}", "{k1ux0}", "{w0ux0}", "{w0ux1}")}
+		}
+	default:
+		i := wallet[len(wallet)-2 : len(wallet)-1] // {widN}
+		m["wallet_id"] = wallet
+		switch g.r.Intn(3) {
+		case 0:
+			m["addresses"] = []interface{}{"{w" + i + "a0}"}
+		case 1:
+			m["unspents"] = []interface{}{"{w" + i + "ux0}"}
+		}
+		if i == "1" {
+			m["password"] = "pw1"
+		}
+		if g.r.Intn(3) == 0 {
+			m["unsigned"] = true
+			delete(m, "password")
+		}
+	}
+	return m
+}
+
 func (g gen) createTxnBody() map[string]interface{} {
+	if g.r.Intn(5) < 2 {
+		return g.coherentTxnBody("")
+	}
 	m := map[string]interface{}{"hours_selection": g.hoursSel(), "to": g.receivers()}
 	if g.r.Intn(2) == 0 {
 		m["change_address"] = g.maybeWeird(g.addr(), g.badAddr())
 	}
 	if g.r.Intn(3) == 0 {
-		m["ignore_unconfirmed"] = g.maybeWeird("x", "y") != "x" || g.r.Bool()
+		m["ignore_unconfirmed"] = g.r.Bool()
 	}
 	switch g.r.Intn(4) {
 	case 0:
@@ -292,50 +357,50 @@ func (g gen) createTxnBody() map[string]interface{} {
 }
 
 var endpoints = map[string][]endpoint{
-	"/":                                    {{method: "GET"}},
-	"/api/v1/csrf":                         {{method: "GET"}},
-	"/api/v1/version":                      {{method: "GET"}},
-	"/api/v1/health":                       {{method: "GET"}},
-	"/api/v1/wallet":                       {{method: "GET", form: P("id", "wid")}},
-	"/api/v1/wallet/create":                {{method: "POST", form: P("seed", "seed", "label", "label", "type", "wtype", "encrypt", "bool", "password", "password", "scan", "count", "bip44-coin", "coinint", "seed-passphrase", "password", "private-keys", "skeys", "xpub", "xpub")}},
-	"/api/v1/wallet/createTemp":            {{method: "POST", form: P("seed", "seed", "label", "label", "type", "wtype", "scan", "count", "bip44-coin", "coinint", "seed-passphrase", "password", "private-keys", "skeys", "xpub", "xpub")}},
-	"/api/v1/wallet/newAddress":            {{method: "POST", form: P("id", "wid", "num", "count", "password", "password", "private-keys", "skeys")}},
-	"/api/v1/wallet/scan":                  {{method: "POST", form: P("id", "wid", "num", "count", "password", "password")}},
-	"/api/v1/wallet/balance":               {{method: "GET", form: P("id", "wid")}},
-	"/api/v1/wallet/transactions":          {{method: "GET", form: P("id", "wid", "verbose", "bool")}},
-	"/api/v1/wallet/update":                {{method: "POST", form: P("id", "wid", "label", "label")}},
-	"/api/v1/wallets":                      {{method: "GET"}},
-	"/api/v1/wallets/folderName":           {{method: "GET"}},
-	"/api/v1/wallet/newSeed":               {{method: "GET", form: P("entropy", "entropy")}},
-	"/api/v1/wallet/seed":                  {{method: "POST", form: P("id", "wid", "password", "password")}},
-	"/api/v1/wallet/unload":                {{method: "POST", form: P("id", "wid")}},
-	"/api/v1/wallet/encrypt":               {{method: "POST", form: P("id", "wid", "password", "password")}},
-	"/api/v1/wallet/decrypt":               {{method: "POST", form: P("id", "wid", "password", "password")}},
-	"/api/v1/blockchain/metadata":          {{method: "GET"}},
-	"/api/v1/blockchain/progress":          {{method: "GET"}},
-	"/api/v1/block":                        {{method: "GET", form: P("hash", "bhash", "verbose", "bool")}, {method: "GET", form: P("seq", "seq", "verbose", "bool")}, {method: "GET", form: P("hash", "bhash", "seq", "seq")}},
-	"/api/v1/blocks":                       {{method: "GET", form: P("start", "start", "end", "end", "verbose", "bool")}, {method: "POST", form: P("seqs", "seqs", "verbose", "bool")}, {method: "GET", form: P("start", "start", "end", "end", "seqs", "seqs")}},
-	"/api/v1/last_blocks":                  {{method: "GET", form: P("num", "num", "verbose", "bool")}},
-	"/api/v1/network/connection":           {{method: "GET", form: P("addr", "ipport")}},
-	"/api/v1/network/connections":          {{method: "GET", form: P("states", "states", "direction", "direction")}},
-	"/api/v1/network/defaultConnections":   {{method: "GET"}},
-	"/api/v1/network/connections/trust":    {{method: "GET"}},
-	"/api/v1/network/connections/exchange": {{method: "GET"}},
+	"/":                                     {{method: "GET"}},
+	"/api/v1/csrf":                          {{method: "GET"}},
+	"/api/v1/version":                       {{method: "GET"}},
+	"/api/v1/health":                        {{method: "GET"}},
+	"/api/v1/wallet":                        {{method: "GET", form: P("id", "wid")}},
+	"/api/v1/wallet/create":                 {{method: "POST", form: P("seed", "seed", "label", "label", "type", "wtype", "encrypt", "bool", "password", "password", "scan", "count", "bip44-coin", "coinint", "seed-passphrase", "password", "private-keys", "skeys", "xpub", "xpub")}},
+	"/api/v1/wallet/createTemp":             {{method: "POST", form: P("seed", "seed", "label", "label", "type", "wtype", "scan", "count", "bip44-coin", "coinint", "seed-passphrase", "password", "private-keys", "skeys", "xpub", "xpub")}},
+	"/api/v1/wallet/newAddress":             {{method: "POST", form: P("id", "wid", "num", "count", "password", "password", "private-keys", "skeys")}},
+	"/api/v1/wallet/scan":                   {{method: "POST", form: P("id", "wid", "num", "count", "password", "password")}},
+	"/api/v1/wallet/balance":                {{method: "GET", form: P("id", "wid")}},
+	"/api/v1/wallet/transactions":           {{method: "GET", form: P("id", "wid", "verbose", "bool")}},
+	"/api/v1/wallet/update":                 {{method: "POST", form: P("id", "wid", "label", "label")}},
+	"/api/v1/wallets":                       {{method: "GET"}},
+	"/api/v1/wallets/folderName":            {{method: "GET"}},
+	"/api/v1/wallet/newSeed":                {{method: "GET", form: P("entropy", "entropy")}},
+	"/api/v1/wallet/seed":                   {{method: "POST", form: P("id", "wid", "password", "password")}},
+	"/api/v1/wallet/unload":                 {{method: "POST", form: P("id", "wid")}},
+	"/api/v1/wallet/encrypt":                {{method: "POST", form: P("id", "wid", "password", "password")}},
+	"/api/v1/wallet/decrypt":                {{method: "POST", form: P("id", "wid", "password", "password")}},
+	"/api/v1/blockchain/metadata":           {{method: "GET"}},
+	"/api/v1/blockchain/progress":           {{method: "GET"}},
+	"/api/v1/block":                         {{method: "GET", form: P("hash", "bhash", "verbose", "bool")}, {method: "GET", form: P("seq", "seq", "verbose", "bool")}, {method: "GET", form: P("hash", "bhash", "seq", "seq")}},
+	"/api/v1/blocks":                        {{method: "GET", form: P("start", "start", "end", "end", "verbose", "bool")}, {method: "POST", form: P("seqs", "seqs", "verbose", "bool")}, {method: "GET", form: P("start", "start", "end", "end", "seqs", "seqs")}},
+	"/api/v1/last_blocks":                   {{method: "GET", form: P("num", "num", "verbose", "bool")}},
+	"/api/v1/network/connection":            {{method: "GET", form: P("addr", "ipport")}},
+	"/api/v1/network/connections":           {{method: "GET", form: P("states", "states", "direction", "direction")}},
+	"/api/v1/network/defaultConnections":    {{method: "GET"}},
+	"/api/v1/network/connections/trust":     {{method: "GET"}},
+	"/api/v1/network/connections/exchange":  {{method: "GET"}},
 	"/api/v1/network/connection/disconnect": {{method: "POST", form: P("id", "gnetid")}},
-	"/api/v1/pendingTxs":                   {{method: "GET", form: P("verbose", "bool")}},
-	"/api/v1/transaction":                  {{method: "GET", form: P("txid", "txid", "verbose", "bool", "encoded", "bool")}},
-	"/api/v1/transactions":                 {{method: "GET", form: P("addrs", "addrs", "confirmed", "bool", "verbose", "bool")}, {method: "POST", form: P("addrs", "addrs", "confirmed", "bool", "verbose", "bool")}},
-	"/api/v1/transactions/num":             {{method: "GET"}},
-	"/api/v2/transactions":                 {{method: "GET", form: P("addrs", "addrs", "confirmed", "bool", "verbose", "bool", "sort", "sort", "limit", "limit", "page", "page")}},
-	"/api/v1/resendUnconfirmedTxns":        {{method: "POST"}},
-	"/api/v1/rawtx":                        {{method: "GET", form: P("txid", "txid")}},
-	"/api/v1/outputs":                      {{method: "GET", form: P("addrs", "addrs")}, {method: "POST", form: P("hashes", "hashes")}, {method: "GET", form: P("addrs", "addrs", "hashes", "hashes")}},
-	"/api/v1/balance":                      {{method: "GET", form: P("addrs", "addrs")}, {method: "POST", form: P("addrs", "addrs")}},
-	"/api/v1/uxout":                        {{method: "GET", form: P("uxid", "uxid")}},
-	"/api/v1/address_uxouts":               {{method: "GET", form: P("address", "addr")}},
-	"/api/v1/coinSupply":                   {{method: "GET"}},
-	"/api/v1/richlist":                     {{method: "GET", form: P("n", "n", "include-distribution", "bool")}},
-	"/api/v1/addresscount":                 {{method: "GET"}},
+	"/api/v1/pendingTxs":                    {{method: "GET", form: P("verbose", "bool")}},
+	"/api/v1/transaction":                   {{method: "GET", form: P("txid", "txid", "verbose", "bool", "encoded", "bool")}},
+	"/api/v1/transactions":                  {{method: "GET", form: P("addrs", "addrs", "confirmed", "bool", "verbose", "bool")}, {method: "POST", form: P("addrs", "addrs", "confirmed", "bool", "verbose", "bool")}},
+	"/api/v1/transactions/num":              {{method: "GET"}},
+	"/api/v2/transactions":                  {{method: "GET", form: P("addrs", "addrs", "confirmed", "bool", "verbose", "bool", "sort", "sort", "limit", "limit", "page", "page")}},
+	"/api/v1/resendUnconfirmedTxns":         {{method: "POST"}},
+	"/api/v1/rawtx":                         {{method: "GET", form: P("txid", "txid")}},
+	"/api/v1/outputs":                       {{method: "GET", form: P("addrs", "addrs")}, {method: "POST", form: P("hashes", "hashes")}, {method: "GET", form: P("addrs", "addrs", "hashes", "hashes")}},
+	"/api/v1/balance":                       {{method: "GET", form: P("addrs", "addrs")}, {method: "POST", form: P("addrs", "addrs")}},
+	"/api/v1/uxout":                         {{method: "GET", form: P("uxid", "uxid")}},
+	"/api/v1/address_uxouts":                {{method: "GET", form: P("address", "addr")}},
+	"/api/v1/coinSupply":                    {{method: "GET"}},
+	"/api/v1/richlist":                      {{method: "GET", form: P("n", "n", "include-distribution", "bool")}},
+	"/api/v1/addresscount":                  {{method: "GET"}},
 	"/api/v2/data": {{method: "GET", form: P("type", "stype", "key", "key")}, {method: "DELETE", form: P("type", "stype", "key", "key")},
 		{method: "POST", json: func(g gen) interface{} {
 			return map[string]interface{}{"type": g.maybeWeird(g.pick("client", "txid"), "general"), "key": g.maybeWeird(g.pick("k1", "k2", "{tx1}"), g.weirdStr()),
@@ -361,6 +426,15 @@ var endpoints = map[string][]endpoint{
 	}}},
 	"/api/v2/wallet/transaction/sign": {{method: "POST", json: func(g gen) interface{} {
 		v, bad := g.value("raw")
+		if g.r.Intn(3) == 0 {
+			// coherent: the wallet's own unsigned transaction
+			i := g.pick("0", "2")
+			m := map[string]interface{}{"wallet_id": "{wid" + i + "}", "encoded_transaction": "{raw.w" + i + "unsigned}"}
+			if g.r.Bool() {
+				m["sign_indexes"] = []interface{}{0}
+			}
+			return m
+		}
 		m := map[string]interface{}{"wallet_id": g.maybeWeird(g.wid(), g.badWid()), "password": g.maybeWeird(g.password(), g.weirdStr()),
 			"encoded_transaction": g.maybeWeird(v, bad)}
 		switch g.r.Intn(4) {
@@ -375,6 +449,9 @@ var endpoints = map[string][]endpoint{
 	}}},
 	"/api/v2/transaction": {{method: "POST", json: func(g gen) interface{} { return g.createTxnBody() }}},
 	"/api/v1/wallet/transaction": {{method: "POST", json: func(g gen) interface{} {
+		if g.r.Intn(5) < 2 {
+			return g.coherentTxnBody(g.pick("{wid0}", "{wid1}", "{wid2}"))
+		}
 		m := g.createTxnBody()
 		m["wallet_id"] = g.maybeWeird(g.wid(), g.badWid())
 		if g.r.Intn(2) == 0 {
